@@ -114,8 +114,8 @@ class Preferences:
         """Always use named instead of positional parameters."""
         self.useDefaults()
         for key, value in list(initials.items()):
-            if value:
-                self.__setattr__(key, value)
+            # also False, '' and None are values a preference may be given
+            self.__setattr__(key, value)
 
     def __repr__(self):
         return "cssutils.css.{}({})".format(
